@@ -214,6 +214,8 @@ Definition GIVEUP_SLACK_MS : N := 4000.
    1303 pending data not delivered / tower not shown reachable within max-retry + auto-retry + slack after the
    tower recovered (detail 2: a tower left in `subscription error` by a refused renewal, healthy now, still has
    pending data that long after an accepted retrytower / a new revocation issued from a settled state);
+   (detail 3: registertower alone turned a tower with undelivered data - shown subscription error / unreachable / misbehaving
+   at the last settle point - into `reachable`: the status is kept on a renewal, wt_add_update_tower);
    1304 a tower that keeps failing is not shown unreachable after max-retry + slack (failing = down, answering
    garbage, or: answering `subscription error` while its register endpoint fails transiently, counted from the
    event that started the retry loop);
@@ -282,6 +284,8 @@ Record m13 := mk_m13 {
   m3_tw : amap tw; m3_up : bool; m3_prev : cstep; m3_have_prev : bool;
   m3_pend_since : amap N;     (* tower -> ms of the first observation since which it has had pending rows continuously (and no retry/start) *)
   m3_settled : bool;          (* nothing has been asked of the plugin since the last settle point (tower script changes and sleeps aside) *)
+  m3_regonly : bool;          (* since the last settle point the plugin was asked nothing but registertower (script changes, sleeps aside) *)
+  m3_last : amap summary;     (* listtowers at the last settle point *)
   m3_kick : amap N;           (* tower -> ms of the last event, issued from a settled state, that makes the plugin (re)start retrying it:
                                  an ACCEPTED retrytower of the tower, a commitment_revocation *)
   m3_out : list viol }.
@@ -319,6 +323,26 @@ Definition c13_step (sc : scen) (m : m13) (ist : N * cstep) : m13 :=
       else if N.eqb k K_REV then fold_left (fun acc kv => aset acc (fst kv) now) (ob_lt (ss_obs (m3_prev m))) kick0
       else kick0
     else kick0 in
+  (* registertower alone never makes a tower with undelivered data `reachable`: a tower that was shown subscription error
+     (renewal refused for good: no retrier), unreachable (idle retrier; only while the auto-retry is far away) or misbehaving
+     at the last settle point, with data pending, and has only been registered with again since, keeps that status
+     (1303 detail 3: shown reachable with the data still pending and nobody retrying it) *)
+  let regonly := (is_settle_step st) || (m3_regonly m && (N.eqb k K_REG || N.eqb k K_MODE || N.eqb k K_UP || N.eqb k K_SLEEP)) in
+  let v_regkeep :=
+    if is_settle_step st && m3_regonly m && up && ob_alive o then
+      flat_map (fun kv : N * summary =>
+        let (x, su) := kv in
+        match su_status su, su_pending su, aget (m3_last m) x with
+        | Reachable, _ :: _, Some su0 =>
+          match su_status su0, su_pending su0 with
+          | SubscriptionError, _ :: _ | Misbehaving, _ :: _ => [(1303, i, x, 3)]
+          | Unreachable, _ :: _ => if N.leb 20 (sc_auto sc) then [(1303, i, x, 3)] else []
+          | _, _ => []
+          end
+        | _, _, _ => []
+        end) (ob_lt o)
+    else [] in
+  let last := if is_settle_step st && ob_alive o then ob_lt o else if N.eqb k K_KILL || N.eqb k K_START then [] else m3_last m in
   let settled := (is_settle_step st) || (m3_settled m && (N.eqb k K_MODE || N.eqb k K_UP || N.eqb k K_SLEEP)) in
   (* delivery after recovery *)
   let dlim := 1000 * (sc_max_retry sc + sc_auto sc + 2 * sc_interval sc) + DELIVER_SLACK_MS in
@@ -391,8 +415,8 @@ Definition c13_step (sc : scen) (m : m13) (ist : N * cstep) : m13 :=
       flat_map (fun kv : N * summary => match su_status (snd kv) with TemporaryUnreachable => [(1306, i, fst kv, 0)] | _ => [] end) (ob_lt o)
     else [] in
   {| m3_tw := tws; m3_up := up; m3_prev := st; m3_have_prev := true; m3_pend_since := pend_since;
-     m3_settled := settled; m3_kick := kicks;
-     m3_out := m3_out m ++ v_deliver ++ v_giveup ++ v_gate ++ v_cap |}.
+     m3_settled := settled; m3_regonly := regonly; m3_last := last; m3_kick := kicks;
+     m3_out := m3_out m ++ v_deliver ++ v_giveup ++ v_gate ++ v_cap ++ v_regkeep |}.
 
 Definition mon_c13 (sc : scen) : list viol :=
   let steps := index_from 0 (sc_steps sc) in
@@ -400,4 +424,4 @@ Definition mon_c13 (sc : scen) : list viol :=
   first_viol (dup_pairs sds) ++ first_viol (flood sds) ++
   m3_out (fold_left (c13_step sc) steps
             {| m3_tw := []; m3_up := false; m3_prev := mk_cstep 0 0 0 0 0 empty_cobs; m3_have_prev := false;
-               m3_pend_since := []; m3_settled := false; m3_kick := []; m3_out := [] |}).
+               m3_pend_since := []; m3_settled := false; m3_regonly := false; m3_last := []; m3_kick := []; m3_out := [] |}).
